@@ -15,7 +15,7 @@ forks, and the shadow run re-checks each path concretely.
 import argparse
 import io
 
-from sx.values import json_identical, snapshot
+from sx.values import json_identical, unchanged, snapshot
 from gen import notebooks as G
 from oracles.category import CATEGORIES, categories, entries_with_paths
 from . import common, fam_nbdiff, fam_nbmerge
@@ -158,8 +158,8 @@ def make_render_diff(templates, renderer="git", lo=0, hi=64, colors=(0, 1), word
                     E.check("diff-touching-non-ignored-category-prints-something", bool(body),
                             info="entry at %s, ignored %r, output %r" % (p, ignored, text[:120]))
         if c13:
-            E.check("render-leaves-notebook-unchanged", json_identical(a, sa))
-            E.check("render-leaves-diff-unchanged", json_identical(d, sd))
+            E.check("render-leaves-notebook-unchanged", unchanged(a, sa))
+            E.check("render-leaves-diff-unchanged", unchanged(d, sd))
             # the same diff with the entries of every object-level diff in the
             # opposite order (a valid diff: object entries are unordered)
             drev = _reverse_mapping_diffs(a, d)
@@ -167,7 +167,7 @@ def make_render_diff(templates, renderer="git", lo=0, hi=64, colors=(0, 1), word
             cfg.out = io.StringIO()
             render_checks(E, "diff", lambda: pretty_print_notebook_diff("a.ipynb", "b.ipynb", a, drev, cfg),
                           cfg.out, use_color, props, known, (a, b))
-            E.check("render-leaves-reordered-diff-unchanged", json_identical(drev, srev))
+            E.check("render-leaves-reordered-diff-unchanged", unchanged(drev, srev))
         # the notebook itself
         cfg2, out2, ignored2, use_color2 = cfg, io.StringIO(), ignored, use_color
         cfg.out = out2
@@ -175,7 +175,7 @@ def make_render_diff(templates, renderer="git", lo=0, hi=64, colors=(0, 1), word
             sb = snapshot(b)
         render_checks(E, "notebook", lambda: pretty_print_notebook(b, cfg), out2, use_color, props)
         if c13:
-            E.check("render-leaves-shown-notebook-unchanged", json_identical(b, sb))
+            E.check("render-leaves-shown-notebook-unchanged", unchanged(b, sb))
     return h, dict(reset=common.nbdime_reset, allow_render=True)
 
 
@@ -208,8 +208,8 @@ def make_render_decisions(idx, renderer="git", lo=0, hi=64, colors=(0, 1), words
         if text is not None and "C16" in props:
             E.check("decisions-print-summary-line", "conflicted decisions of" in text)
         if c13:
-            E.check("render-leaves-base-unchanged", json_identical(b, sb))
-            E.check("render-leaves-decisions-unchanged", json_identical([dict(x) for x in ds], sd))
+            E.check("render-leaves-base-unchanged", unchanged(b, sb))
+            E.check("render-leaves-decisions-unchanged", unchanged([dict(x) for x in ds], sd))
     return h, dict(reset=common.nbdime_reset, allow_render=True)
 
 
